@@ -54,22 +54,5 @@ func (f *Progx) Call(s *slip.Scope, args slip.List, depth int) slip.Object {
 	ns.TagBody = true
 	d2 := depth + 1
 	processBinding(ns, ns, args[0], d2)
-	for i := 1; i < len(args); i++ {
-		switch tr := slip.EvalArg(ns, args, i, d2).(type) {
-		case *slip.ReturnResult:
-			if tr.Tag == nil {
-				return tr.Result
-			}
-			if s.Block {
-				return tr
-			}
-		case *GoTo:
-			for i++; i < len(args); i++ {
-				if args[i] == tr.Tag {
-					break
-				}
-			}
-		}
-	}
-	return nil
+	return progBody(ns, args, d2)
 }
